@@ -91,3 +91,92 @@ Proof.
   - exists row. split; [reflexivity|]. apply parse_stt_exact; assumption.
   - apply nth_error_None in E. lia.
 Qed.
+
+(* ---- the lines of the row grammar (Lemmas_PumlRow.render) are transition lines in the sense of parse_stt ---- *)
+Lemma idxp_star_no_lbr s : hasb c_lbr s = false -> idxp c_initstar s = None.
+Proof.
+  induction s as [|x s IH]; intros H; [reflexivity|]. cbn [hasb] in H. apply Bool.orb_false_elim in H. destruct H as [Hx Hs].
+  cbn [idxp]. unfold c_initstar at 1. cbn [is_prefix]. rewrite Hx. cbn [andb]. rewrite IH by exact Hs. reflexivity.
+Qed.
+
+Lemma idxp_star_one_lbr a b : hasb c_lbr a = false -> hasb c_lbr b = false ->
+  (match b with x :: _ => x <> c_star | [] => True end) ->
+  idxp c_initstar (a ++ c_lbr :: b) = None.
+Proof.
+  intros Ha Hb Hh. induction a as [|x a IH]; cbn [app].
+  - cbn [idxp]. assert (E : is_prefix c_initstar (c_lbr :: b) = false).
+    { unfold c_initstar. cbn [is_prefix]. rewrite Nat.eqb_refl. cbn [andb]. destruct b as [|y b]; [reflexivity|].
+      cbn [is_prefix]. destruct (Nat.eqb c_star y) eqn:Ey; [apply Nat.eqb_eq in Ey; subst y; contradiction | reflexivity]. }
+    rewrite E. rewrite idxp_star_no_lbr by exact Hb. reflexivity.
+  - cbn [hasb] in Ha. apply Bool.orb_false_elim in Ha. destruct Ha as [Hx Ha].
+    cbn [idxp]. unfold c_initstar at 1. cbn [is_prefix]. rewrite Hx. cbn [andb]. rewrite IH by exact Ha. reflexivity.
+Qed.
+
+(* a line of the grammar whose guard text does not begin with '*' contains an arrow and no "[*]": parse_stt counts it *)
+Definition guard_ok (l:pline) : Prop :=
+  match l_ev l with
+  | Some (_, _, _, _, t) => match tail_guard t with x :: _ => x <> c_star | [] => True end
+  | None => True
+  end.
+
+Lemma render_has_arrow l : wf_line l -> contains c_arrow (render l) = true.
+Proof.
+  intros _. unfold contains.
+  destruct (idxp c_arrow (render l)) eqn:E; [reflexivity|]. exfalso.
+  apply (idxp_some_of_occ c_arrow (render l) (length (l_lead l ++ l_src l ++ l_b0 l ++ l_d l))); [| |exact E].
+  - unfold render. rewrite !app_length. cbn [length]. lia.
+  - unfold render.
+    replace (l_lead l ++ l_src l ++ l_b0 l ++ l_d l ++ c_dash :: c_gt :: l_p1 l ++ l_tgt l ++ l_p2 l ++
+             match l_ev l with None => [] | Some (p3, idash, evt, p4, t) => c_colon :: p3 ++ idash ++ evt ++ p4 ++ render_tail t end)
+      with ((l_lead l ++ l_src l ++ l_b0 l ++ l_d l) ++ c_dash :: c_gt :: l_p1 l ++ l_tgt l ++ l_p2 l ++
+             match l_ev l with None => [] | Some (p3, idash, evt, p4, t) => c_colon :: p3 ++ idash ++ evt ++ p4 ++ render_tail t end)
+      by (rewrite <- !app_assoc; reflexivity).
+    rewrite skipn_app_exact. reflexivity.
+Qed.
+
+Lemma head_ok p g rest : blank p -> starts g -> (match g with x :: _ => x <> c_star | [] => True end) ->
+  match p ++ g ++ rest with x :: _ => x <> c_star | [] => True end.
+Proof.
+  intros Bp Sg Hg. destruct p as [|x p]; cbn [app].
+  - destruct g as [|y g]; [contradiction|]. exact Hg.
+  - inversion Bp as [|? ? Hx _]; subst. destruct Hx as [->| ->]; discriminate.
+Qed.
+
+Lemma render_no_star l : wf_line l -> guard_ok l -> idxp c_initstar (render l) = None.
+Proof.
+  destruct l as [lead src b0 d p1 tgt p2 ev]. unfold wf_line, guard_ok, render. cbn [l_lead l_src l_b0 l_d l_p1 l_tgt l_p2 l_ev].
+  intros (Bl & (_ & _ & Cs) & B0 & Dd & B1 & (_ & _ & Ct) & B2 & Hev) Hg.
+  pose proof (blank_clean _ Bl) as Cl. pose proof (blank_clean _ B0) as C0. pose proof (blank_clean _ B1) as C1.
+  pose proof (blank_clean _ B2) as C2.
+  destruct ev as [[[[[p3 idash] evt] p4] t]|].
+  2:{ apply idxp_star_no_lbr. nos. }
+  destruct Hev as (B3 & Hid & (_ & _ & Ce) & B4 & Ht).
+  pose proof (blank_clean _ B3) as C3. pose proof (blank_clean _ B4) as C4.
+  assert (Did : dashes idash) by (destruct Hid as [->| ->]; repeat constructor).
+  destruct t as [|p5 a p6|p5 g p6 p7|p5 a p6 p7 g p8 p9|p5 g p6 p7 p8 a p9]; cbn [render_tail tail_guard wf_tail] in *.
+  - apply idxp_star_no_lbr. nos.
+  - destruct Ht as (B5 & (_ & _ & Ca) & B6). pose proof (blank_clean _ B5) as C5. pose proof (blank_clean _ B6) as C6.
+    apply idxp_star_no_lbr. nos.
+  - destruct Ht as (B5 & (Sg & _ & Cg) & B6 & B7).
+    pose proof (blank_clean _ B5) as C5. pose proof (blank_clean _ B6) as C6. pose proof (blank_clean _ B7) as C7.
+    replace (lead ++ src ++ b0 ++ d ++ c_dash :: c_gt :: p1 ++ tgt ++ p2 ++ c_colon :: p3 ++ idash ++ evt ++ p4 ++ c_lbr :: p5 ++ g ++ p6 ++ c_rbr :: p7)
+      with ((lead ++ src ++ b0 ++ d ++ c_dash :: c_gt :: p1 ++ tgt ++ p2 ++ c_colon :: p3 ++ idash ++ evt ++ p4) ++ c_lbr :: p5 ++ g ++ p6 ++ c_rbr :: p7) by la.
+    apply idxp_star_one_lbr; [nos | nos | apply head_ok; assumption].
+  - destruct Ht as (B5 & (_ & _ & Ca) & B6 & B7 & (Sg & _ & Cg) & B8 & B9).
+    pose proof (blank_clean _ B5) as C5. pose proof (blank_clean _ B6) as C6. pose proof (blank_clean _ B7) as C7.
+    pose proof (blank_clean _ B8) as C8. pose proof (blank_clean _ B9) as C9.
+    replace (lead ++ src ++ b0 ++ d ++ c_dash :: c_gt :: p1 ++ tgt ++ p2 ++ c_colon :: p3 ++ idash ++ evt ++ p4 ++ c_slash :: p5 ++ a ++ p6 ++ c_lbr :: p7 ++ g ++ p8 ++ c_rbr :: p9)
+      with ((lead ++ src ++ b0 ++ d ++ c_dash :: c_gt :: p1 ++ tgt ++ p2 ++ c_colon :: p3 ++ idash ++ evt ++ p4 ++ c_slash :: p5 ++ a ++ p6) ++ c_lbr :: p7 ++ g ++ p8 ++ c_rbr :: p9) by la.
+    apply idxp_star_one_lbr; [nos | nos | apply head_ok; assumption].
+  - destruct Ht as (B5 & (Sg & _ & Cg) & B6 & B7 & B8 & (_ & _ & Ca) & B9).
+    pose proof (blank_clean _ B5) as C5. pose proof (blank_clean _ B6) as C6. pose proof (blank_clean _ B7) as C7.
+    pose proof (blank_clean _ B8) as C8. pose proof (blank_clean _ B9) as C9.
+    replace (lead ++ src ++ b0 ++ d ++ c_dash :: c_gt :: p1 ++ tgt ++ p2 ++ c_colon :: p3 ++ idash ++ evt ++ p4 ++ c_lbr :: p5 ++ g ++ p6 ++ c_rbr :: p7 ++ c_slash :: p8 ++ a ++ p9)
+      with ((lead ++ src ++ b0 ++ d ++ c_dash :: c_gt :: p1 ++ tgt ++ p2 ++ c_colon :: p3 ++ idash ++ evt ++ p4) ++ c_lbr :: p5 ++ g ++ p6 ++ c_rbr :: p7 ++ c_slash :: p8 ++ a ++ p9) by la.
+    apply idxp_star_one_lbr; [nos | nos | apply head_ok; assumption].
+Qed.
+
+Theorem grammar_line_is_transition_line l : wf_line l -> guard_ok l -> is_transb (render l) = true.
+Proof.
+  intros Hw Hg. unfold is_transb, contains at 1. rewrite (render_no_star l Hw Hg). cbn [negb andb]. apply render_has_arrow. exact Hw.
+Qed.
